@@ -633,6 +633,10 @@ func ruleNodeLayer(c *Ctx) {
 		}
 		key := "package variable " + name
 		props := []string{"C16", "C12"}
+		if v == m.PoolVar && !strings.Contains(v.Type().String(), "sync.Pool") {
+			c.r.bad("R30", key, m.pos(v.Pos()), "the node pool shared by all trees is a "+types.TypeString(v.Type(), nil)+", not a sync.Pool: trees used from different goroutines race on it", props...)
+			continue
+		}
 		if strings.Contains(v.Type().String(), "sync.Pool") {
 			// every use must be pool[K].Get() / pool[K].Put(x)
 			badUse := ""
